@@ -354,14 +354,45 @@ Section Model.
       end
     end.
 
+  (* np.insert of b's rows / jd pairs into a's *)
+  Definition ins (q : quirks) (st : state) (a b : obj) (pos : Z) : state * result :=
+    match insert_at (o_vals a) pos (o_vals b), insert_at (flat (o_jd a)) pos (flat (o_jd b)) with
+    | Some vs, Some js => new_obj q st (mkObj false vs (JA js) (o_fmt a) (o_scale a) None)
+    | _, _ => (st, RErr)
+    end.
+
+  (* getattr(b, <scale 1>) of an array of scale 0 whose result is used but not kept by the caller (insert of an
+     array of another scale): the converted object and the state with the side effects of the conversion *)
+  Definition convert_anon (q : quirks) (st : state) (h : nat) (o : obj) : state * option obj :=
+    let key := (o_scale o, flat (o_jd o), 1) in
+    match (if q_cache q then assoc skey_eqb key (scache st) else None) with
+    | Some h' => (st, nth_error (heap st) h')
+    | None =>
+      if q_side q && cv_iter && negb (o_scalar o) && is_js (o_jd o) then (st, None)
+      else
+        let st0 := if q_side q && cv_iter && negb (o_scalar o)
+                   then match rev (flat (o_jd o)) with j :: _ => set_heap_sl st h (Some (JS j)) | [] => st end
+                   else st in
+        let o' := from_jds 1 (fmt_to (o_fmt o)) (map_jdv cv (o_jd o)) in
+        (if q_cache q
+         then mkState (heap st0 ++ [o']) (names st0) ((key, length (heap st0)) :: scache st0) (fcache st0)
+         else st0, Some o')
+    end.
+
+  (* TimeArray.insert(a, pos, b, {}): b is first brought to the scale of a (modelled: a in scale 1, b an array
+     in scale 0), then values and jd pairs of the converted b are inserted *)
   Definition do_insert (q : quirks) (st : state) (k : nat) (pos : Z) (j : nat) : state * result :=
     match getobj st k, getobj st j with
-    | Some (_, a), Some (_, b) =>
-      if o_scalar a || negb (o_scale a =? o_scale b) || negb (o_fmt a =? o_fmt b) then (st, RErr) else
-      match insert_at (o_vals a) pos (o_vals b), insert_at (flat (o_jd a)) pos (flat (o_jd b)) with
-      | Some vs, Some js => new_obj q st (mkObj false vs (JA js) (o_fmt a) (o_scale a) None)
-      | _, _ => (st, RErr)
-      end
+    | Some (_, a), Some (hb, b) =>
+      if o_scalar a then (st, RErr)
+      else if o_scale a =? o_scale b then
+        (if o_fmt a =? o_fmt b then ins q st a b pos else (st, RErr))
+      else if (o_scale a =? 1) && (o_scale b =? 0) && negb (o_scalar b) then
+        match convert_anon q st hb b with
+        | (st1, Some b') => if o_fmt a =? o_fmt b' then ins q st1 a b' pos else (st1, RErr)
+        | (st1, None) => (st1, RErr)
+        end
+      else (st, RErr)
     | _, _ => (st, RErr)
     end.
 
@@ -606,4 +637,21 @@ Definition check_write (c : Z * bool * bool) : Z :=
   match c with
   | (w, raised, changed) =>
     if raised && negb changed then 0 else if w =? 6 then 2 else 1
+  end.
+
+(* TimeArray.insert(a, pos, b, {}) for arrays of any two scales / formats, stated on observables: `b` is the
+   observation of b brought to the scale and format of a by a fresh conversion; the result must be a's rows,
+   jd1, jd2 and derived format with b's inserted at pos (error iff pos is out of range) *)
+Definition jo_list (x : jo) : list Z := match x with S1 z => [z] | A1 l => l end.
+Definition check_insert (c : oobs * oobs * Z * obsres) : Z :=
+  match c with
+  | (a, b, pos, new) =>
+    let expected :=
+      match insert_at (b_vals a) pos (b_vals b), insert_at (jo_list (b_jd1 a)) pos (jo_list (b_jd1 b)),
+            insert_at (jo_list (b_jd2 a)) pos (jo_list (b_jd2 b)), insert_at (jo_list (b_der a)) pos (jo_list (b_der b)) with
+      | Some vs, Some j1, Some j2, Some d =>
+        OObj (mkO false vs (A1 j1) (A1 j2) (Z.of_nat (length vs)) (A1 d) (b_fmt a) (b_scale a))
+      | _, _, _, _ => OErr
+      end in
+    if obsres_eqb new expected then 0 else 1
   end.
